@@ -1,14 +1,14 @@
 CONSTANTS
-  NW = 1
+  NW = 2
   MaxLive = 1
   MaxStops = 1
   Timeout = 2
   ForcedAwaitsWorkers = FALSE
   GracefulSkipsAwait = FALSE
   CompleteBeforeJoin = FALSE
-  TermIsForced = TRUE
+  TermIsForced = FALSE
   SecondStopHangs = FALSE
-  AwaitsLastWorkerOnly = FALSE
+  AwaitsLastWorkerOnly = TRUE
 SPECIFICATION Spec
 VIEW View
 INVARIANTS C06_GracefulWaits C06_NoDispatchAfterCompletion C06_SignalKinds
